@@ -200,3 +200,6 @@ CLAIMED["C16"]["technique"] += "; forwarding Trace impls define both methods, no
 CLAIMED["C17"]["technique"] += "; who-may-write rule on the per-value metadata in front of the header"
 CLAIMED["C18"]["technique"] += "; who-may-call rule on the unsafe builder completions; def-use rule on pointers to a builder's block"
 CLAIMED["C19"]["technique"] += "; signature rule: the coercion site of unsize! is raw-pointer to raw-pointer (+ Deref-coercion rejection witnesses)"
+
+NOTES += (" Repairs of genuine defects in /repo (unguarded `fix:` commits, each minimal, the unedited suite passes with each): "
+          "cddd983, 96d609a, f123ef0, 4330406; see known_findings.json (five `fixed:` entries, no open finding) and DESIGN.md section 5.")
